@@ -184,6 +184,25 @@ __CPROVER_ensures(!VERIF_thrown ==> __CPROVER_return_value == &SM_gsite)
 //@harness h_Lattice_getSite enforce=Lattice_getSite props=C20 min_obl=284 reach=3 objbits=8 timeout=60
 void h_Lattice_getSite(void) { struct Lattice *l; label_t lab; Lattice_getSite(l, lab); if (VERIF_thrown) REACH("thrown"); else REACH("found"); REACH("exit"); }
 
+/* ---- read accessors: getTermStorage() is the lattice's own term storage, getSiteMap() its own site map (IndexClassification and
+ * IndexHamiltonian read the lattice through these two); nothing is written. */
+//@function Pomerol::Lattice::getTermStorage() const as Lattice_getTermStorage
+//@contract
+__CPROVER_requires(__CPROVER_is_fresh(self, sizeof(*self)))
+__CPROVER_assigns()
+__CPROVER_ensures(__CPROVER_return_value == self->Terms)
+//@end
+//@harness h_Lattice_getTermStorage enforce=Lattice_getTermStorage props=C20 min_obl=10 reach=1 objbits=8 timeout=60
+void h_Lattice_getTermStorage(void) { struct Lattice *l; Lattice_getTermStorage(l); REACH("exit"); }
+//@function Pomerol::Lattice::getSiteMap[abi:cxx11]() const as Lattice_getSiteMap
+//@contract
+__CPROVER_requires(__CPROVER_is_fresh(self, sizeof(*self)))
+__CPROVER_assigns()
+__CPROVER_ensures(__CPROVER_return_value == &self->Sites)
+//@end
+//@harness h_Lattice_getSiteMap enforce=Lattice_getSiteMap props=C20 min_obl=10 reach=1 objbits=8 timeout=60
+void h_Lattice_getSiteMap(void) { struct Lattice *l; Lattice_getSiteMap(l); REACH("exit"); }
+
 /* ---- addSite: compiled with -DSM_INSERT_MODEL (std::map operator[] as insertion cell, see stubs/sitemap.h) */
 //@function Pomerol::Lattice::addSite(Pomerol::Lattice::Site*) as Lattice_addSite1
 //@contract
